@@ -656,28 +656,37 @@ impl ExecutableContent for SendParameters {
                 let global_clone = datamodel.global_s().clone();
                 // Sends without id are kept under a generated key, so that the session can discard
                 // all its undelivered events when it terminates.
+                let unique = PLATFORM_ID_COUNTER.fetch_add(1, Ordering::Relaxed);
                 let guard_key = match &send_id {
                     Some(sid) => sid.clone(),
-                    None => format!(
-                        "\u{1}delayed.{}",
-                        PLATFORM_ID_COUNTER.fetch_add(1, Ordering::Relaxed)
-                    ),
+                    None => format!("\u{1}delayed.{}", unique),
                 };
                 let guard_key_clone = guard_key.clone();
                 let target_str = target_guard.to_string();
                 let tg = fsm.schedule(delay_ms, move || {
-                    global_clone.lock().unwrap().delayed_send.remove(&guard_key_clone);
+                    {
+                        let mut global_lock = global_clone.lock().unwrap();
+                        if let Some(pending) = global_lock.delayed_send.get_mut(&guard_key_clone) {
+                            pending.retain(|(u, _)| *u != unique);
+                            if pending.is_empty() {
+                                global_lock.delayed_send.remove(&guard_key_clone);
+                            }
+                        }
+                    }
                     iopc.lock()
                         .unwrap()
                         .send(&global_clone, target_str.as_str(), event.clone());
                 });
                 if let Some(g) = tg {
+                    // A second pending send with the same id must not replace (and thereby cancel) the first.
                     datamodel
                         .global()
                         .lock()
                         .unwrap()
                         .delayed_send
-                        .insert(guard_key, g);
+                        .entry(guard_key)
+                        .or_default()
+                        .push((unique, g));
                 };
                 true
             } else {
